@@ -73,7 +73,9 @@ pub fn conc_campaigns(property: &str) -> Vec<ConcCampaign> {
     use crate::conc::ConcProfile::*;
     match property {
         "C01" => vec![ConcCampaign { name: "conc-monitor", profile: General, cases_quick: 500, cases_thorough: 3000, nt: |s| s.monitor_samples > 0 && s.evicted_or_rejected,
-            rule: "generated concurrent programs (2-6 threads, 1-6 overlapping keys, queue 1-8, clock thread, delay injection) with a monitor thread spinning on total_weight_used() for the whole run; weight-raising upserts are never generated (known finding F5); non-trivial = the monitor sampled and at least one put was refused for space (the cache was under pressure)" }],
+            rule: "generated concurrent programs (2-6 threads, 1-6 overlapping keys, queue 1-8, clock thread, delay injection) with a monitor thread spinning on total_weight_used() for the whole run; weight-raising upserts are never generated (known finding F5); non-trivial = the monitor sampled and at least one put was refused for space (the cache was under pressure)" },
+            ConcCampaign { name: "conc-evict-vs-sweep", profile: EvictVsSweep, cases_quick: 400, cases_thorough: 6000, nt: |s| s.eviction_loop_delayed && s.swept_during_run,
+            rule: "small cache (60-150) full of short-lived TTL keys, heavy puts needing several evictions, the eviction loop delayed 100-800 us per step while a clock thread makes the sweeper collect keys concurrently; monitor on total_weight_used() plus bound and bijection at quiescence; non-trivial = the eviction loop ran AND the sweeper collected at least one key during the run" }],
         "C05" => vec![ConcCampaign { name: "conc-quiescence", profile: General, cases_quick: 800, cases_thorough: 6000, nt: |s| s.unawaited_same_key,
             rule: "generated concurrent programs racing the same keys; quiescence is constructed (all acknowledgements awaited, clock frozen, two sweeps waited for) and the physical snapshot must be a bijection store ids <-> charged ids with a matching total; non-trivial = two writes of one key where the second was issued before the first was acknowledged" }],
         "C02" => vec![ConcCampaign { name: "conc-reads", profile: General, cases_quick: 1200, cases_thorough: 10_000, nt: |s| s.overlapping_read_write && s.read_after_completed_overwrite,
